@@ -20,7 +20,10 @@ CFG = render.cfg_with()
 # P4 / P5 are read per language: a word group and an operator word of Turkish (a rule's patterns are tokenised in the rule's language)
 # P6 has a literal word with a capital letter: the line written exactly like the pattern matches it
 PATTERNS = {"P1": "zorp {NUMBER:n}", "P2": "blip {NUMBER:n}", "P3": "{TEXT:w} quux {NUMBER:n}", "P4": "her {GROUP:p:week_group} {NUMBER:n}", "P5": "{NUMBER:n} kere kere {NUMBER:m}",
-            "P6": "Snarf {NUMBER:n} Wibble"}
+            "P6": "Snarf {NUMBER:n} Wibble",
+            # P7 is two patterns that both fit the line `glorp 7 frob` at different places: the first binds w = glorp (declined by the guard),
+            # the second binds w = frob (accepted) - a declined pattern must not hide the later ones
+            "P7": ["{TEXT:w} {NUMBER:n}", "{NUMBER:n} {TEXT:w}"]}
 TR_RULES = [{"name": "t1", "pats": ["P4"], "beh": "double"}, {"name": "t2", "pats": ["P4", "P5"], "beh": "usd"}, {"name": "n1", "pats": ["P5"], "beh": "double"}]
 BEH = {"double": {"kind": "num_from", "field": "n", "mul": 2, "add": 0},
        "usd": {"kind": "money_from", "field": "n", "cur": "usd"},
@@ -50,6 +53,8 @@ def line_text(line):
             return "blip " + num(line["n"])
         if line["pat"] == "P6":
             return "Snarf %s Wibble" % num(line["n"])
+        if line["pat"] == "P7":
+            return "glorp %s %s" % (num(line["n"]), line["w"])
         if line["pat"] == "P4":
             return "her hafta " + num(line["n"])
         if line["pat"] == "P5":
@@ -67,7 +72,10 @@ def step_of(h):
     c = h["call"]
     if c == "add_rule":
         r = RULES[h["rule"] - 1] if "rule" in h else h["r"]
-        return {"op": "add_rule", "lang": h["lang"], "name": r["name"], "patterns": [PATTERNS[p] for p in sorted(r["pats"])], "behaviour": BEH[r["beh"]]}
+        pats = []
+        for p in sorted(r["pats"]):
+            pats += PATTERNS[p] if isinstance(PATTERNS[p], list) else [PATTERNS[p]]
+        return {"op": "add_rule", "lang": h["lang"], "name": r["name"], "patterns": pats, "behaviour": BEH[r["beh"]]}
     if c == "delete_rule":
         return {"op": "delete_rule", "lang": h["lang"], "name": h["name"]}
     if c == "set_date_rule":
@@ -135,7 +143,8 @@ def run(rep):
                 texts.add(line_text(h["line"]))
     if not {"baseline", "num", "money", "famq"} <= kinds:
         raise ToolError("vacuous generator: %s" % kinds)
-    base = baseline_slots(sorted(texts | set(BUILTIN_LINES) | {line_text({"form": "rule_line", "pat": p, "n": n, "w": ""}) for p in ("P4", "P5", "P6") for n in ([7, 1, 0], [5, 2, 0])}))
+    base = baseline_slots(sorted(texts | set(BUILTIN_LINES) | {line_text({"form": "rule_line", "pat": p, "n": n, "w": ""}) for p in ("P4", "P5", "P6") for n in ([7, 1, 0], [5, 2, 0])}
+                                 | {"glorp 7 frob", "glorp 7 snarf"}))
     cases = [{"id": "h%d" % i, "cfg": CFG, "fresh": True, "steps": [step_of(h) for h in c["hist"]]} for i, c in enumerate(hists)]
     obs = run_harness_stable_day(cases, "c18.gen", jobs=8)
     for c, case, o in zip(hists, cases, obs):
@@ -241,9 +250,11 @@ def random_trace(rep, base, nhist):
              {"form": "fam_conv", "fam": "zorps", "q": [40, 1, 0], "a": 1, "b": 3}, {"form": "fam_conv", "fam": "zorps", "q": [2, 1, 0], "a": 2, "b": 1}]
     lines += [{"form": "opaque", "id": i, "text": t} for i, t in enumerate(BUILTIN_LINES)]
     lines += [{"form": "rule_line", "pat": "P6", "n": [7, 1, 0], "w": ""}, {"form": "rule_line", "pat": "P6", "n": [5, 2, 0], "w": ""}]
+    lines += [{"form": "rule_line", "pat": "P7", "n": [7, 1, 0], "w": "frob"}, {"form": "rule_line", "pat": "P7", "n": [7, 1, 0], "w": "snarf"}]
     lines += [{"form": "rule_line", "pat": "P4", "n": [7, 1, 0], "w": ""}, {"form": "rule_line", "pat": "P5", "n": [5, 2, 0], "w": ""}, {"form": "rule_line", "pat": "P4", "n": [5, 2, 0], "w": ""}]
     # a custom rule may carry the name of a built-in rule; deleting by a built-in rule's name deletes custom rules only
-    rules = RULES + [{"name": "convert_money", "pats": ["P2"], "beh": "double"}, {"name": "n6", "pats": ["P6"], "beh": "double"}, {"name": "n2", "pats": ["P6", "P1"], "beh": "usd"}]
+    rules = RULES + [{"name": "convert_money", "pats": ["P2"], "beh": "double"}, {"name": "n6", "pats": ["P6"], "beh": "double"}, {"name": "n2", "pats": ["P6", "P1"], "beh": "usd"},
+                     {"name": "n7", "pats": ["P7"], "beh": "guard100"}]
     items = [{"idx": 1, "up": [1, 4, 0], "down": [1, 1, 0]}, {"idx": 2, "up": [1, 5, 0], "down": [4, 1, 0]}, {"idx": 3, "up": [1, 1, 0], "down": [5, 1, 0]},
              {"idx": 2, "up": [1, 2, 0], "down": [3, 1, 0]}]
     cases, metas = [], []
